@@ -673,7 +673,7 @@ class RegistryWorld(World):
                    "pool objects' class is never itself registered as a class",
                    "the tier in a violation key is 'extended' iff an effective force (one that an unforced call would have refused) "
                    "was accepted earlier in the history"]
-    QUICK_RUNS = 6000
+    QUICK_RUNS = 10000
     CHUNK = 100
     SHRINK_LISTS = ["ops"]
 
